@@ -119,12 +119,17 @@ class FeeField(DataflowTransactionContext):
             # `value OP fee` is the same as `fee MIRRORED_OP value`
             less, less_e, greater, greater_e = Greater, GreaterE, Less, LessE
 
+        # x != i leaves every value but i: the maximum is U unless i is U itself
+        not_equal = FeeValue()
+        if not compared_value.is_unknown and compared_value.value == MAX_UINT64:
+            not_equal = FeeValue(value=MAX_UINT64 - 1)
+
         if isinstance(comparison_ins, Eq):
             # x == i => i, U
-            return compared_value, FeeValue()
+            return compared_value, not_equal
         if isinstance(comparison_ins, Neq):
             # x != i => U, i
-            return FeeValue(), compared_value
+            return not_equal, compared_value
         if isinstance(comparison_ins, less):
             # x < i => (i - 1), U
             if compared_value.is_unknown:
